@@ -229,6 +229,41 @@ pub fn sites(tier: Tier) -> Vec<Site> {
     s.push(packet_site());
     s.push(pairs_site());
     s.push(reachable_site());
+    // ... whatever the earlier call was and however the later value is related to it: every corpus value decoded or
+    // (its vehicle) encoded first, then every corpus value in 10 rearrangements (reversed = the other byte order, rotated,
+    // two bytes swapped) decoded on the same thread - the result is the one the value gets on a thread of its own
+    {
+        let vals = short_read_values();
+        let mut inputs: Vec<[u8; 4]> = vec![];
+        for v in &vals {
+            let b = v.to_le_bytes();
+            inputs.push(b);
+            inputs.push([b[3], b[2], b[1], b[0]]);
+            for k in 1..4 { let mut x = b; x.rotate_left(k); inputs.push(x); }
+            for (a, c) in [(0, 1), (0, 2), (0, 3), (1, 2), (1, 3), (2, 3)] { let mut x = b; x.swap(a, c); inputs.push(x); }
+        }
+        inputs.sort(); inputs.dedup();
+        let alone: Vec<String> = inputs.iter().map(|b| { let b = *b; std::thread::spawn(move || format!("{:?}", Vehicle::read_le(&mut Cursor::new(&b[..])).map_err(|_| ()))).join().unwrap_or_default() }).collect();
+        let (inputs, alone, vals) = (std::sync::Arc::new(inputs), std::sync::Arc::new(alone), std::sync::Arc::new(vals));
+        let n = vals.len() as u64 * 2;
+        s.push(Site::new("rearranged-after-any-call", n,
+            "every corpus value {decoded, decoded and written back} first, then every corpus value as it is / in the other byte order / rotated / with two bytes swapped (about 500 values) decoded on the same thread: each result is the one the value gets on a thread of its own",
+            move |i, acc| {
+                let first = vals[(i / 2) as usize].to_le_bytes();
+                let write_too = i % 2 == 1;
+                for (k, b) in inputs.iter().enumerate() {
+                    acc.eval();
+                    let _ = guard(|| { let v = Vehicle::read_le(&mut Cursor::new(&first[..])); if write_too { if let Ok(v) = &v { let mut c = Cursor::new(Vec::new()); let _ = v.write_le(&mut c); } } });
+                    let got = guard(|| format!("{:?}", Vehicle::read_le(&mut Cursor::new(&b[..])).map_err(|_| ())));
+                    if got.as_deref() != Ok(alone[k].as_str()) {
+                        acc.violate(i, "C13|history-dependent".into(), format!("{} decoded right after {} was decoded{}: {got:?}; on a thread of its own: {}", crate::report::hex(b), crate::report::hex(&first), if write_too { " and written back" } else { "" }, alone[k]), json!({"site": "rearranged-after-any-call", "index": i, "input": crate::report::hex(b)}));
+                        return;
+                    }
+                }
+                acc.class("rearranged-values-independent-of-the-call-before");
+                acc.nontrivial();
+            }));
+    }
     // no memory between threads either: histories of 2 and 3 decodes / encodes spread over two threads
     {
         let mut corpus: Vec<(String, [u8; 4])> = vec![];
